@@ -55,6 +55,12 @@ Section C08.
     mstep fuel mr (HTopCof hi f v) = Some (mr', x) ->
     exists r, x = OReg r /\ newreg mr mr' r /\ frame mr mr' /\ store mr' = store mr /\ denotes mr' r (fun e => F (upd e v hi)).
   Proof. exact (topcof_step_spec nhash khash bmask cmask0 smask0 capacity cap_ok mr hi f rf F v fuel mr' x). Qed.
+  (* termination of substitute: with fuel above the height of the diagram, no result ONLY IF the node table filled up *)
+  Theorem C08_substitute_fuel_bound mr f rf v b :
+    reachable mr -> liveh mr f rf ->
+    exists bound, forall fuel, (bound <= fuel)%nat -> mstep fuel mr (HSubst f v b) = None ->
+      exists s', sext (store mr) s' /\ Inv s' /\ storage_full node (tbl s').
+  Proof. exact (subst_step_fuel_bound nhash khash bmask cmask0 smask0 capacity cap_ok mr f rf v b). Qed.
 End C08.
 
 Print Assumptions C08_substitute.
@@ -65,3 +71,4 @@ Print Assumptions C08_result_independent.
 Print Assumptions C08_unchanged_when_independent.
 Print Assumptions C08_accessors.
 Print Assumptions C08_top_cofactors.
+Print Assumptions C08_substitute_fuel_bound.
